@@ -208,10 +208,12 @@ def rand_cfg(rng):
 
     def prog(zero_kind_count):
         p = []
-        for _ in range(rng.randrange(0, 3)):
+        same_names = rng.random() < 0.4  # static headers / parameters may repeat a name (two Accept lines), even a whole line
+        for _ in range(rng.randrange(0, 4 if same_names else 3)):
             kind = rng.choice(["_HEADER", "_PARAMETER"])
             val = rng.choice([b"v", b"v\\'w", b"'\\", b"a\"b", b"stage: 2, hop: 4", b"a=b=c", b": "])
-            p.append({"op": kind, "arg": L(b"K%d: " % len(p) + val) if kind == "_HEADER" else L(b"k%d=" % len(p) + val)})
+            num = 0 if same_names else len(p)
+            p.append({"op": kind, "arg": L(b"K%d: " % num + val) if kind == "_HEADER" else L(b"k%d=" % num + val)})
         terms = rng.sample(["PRINT", "HEADER", "PARAMETER", "URI_APPEND"], zero_kind_count)
         for bi, term in enumerate(terms):
             p.append({"op": "BUILD", "arg": bi})
